@@ -53,15 +53,37 @@ def norm_diag(msg):
     return re.sub(r'\s+', '_', msg.strip())[:80]
 
 
-def diag_owner(output, generated_names):
-    """Who owns the file of the first error: 'generated' (a file returned by the build) or
-    'harness' (mock runtime, mock model header, driver)."""
-    for line in output.splitlines():
-        if ' error: ' in line:
-            m = re.match(r'^(?:In file included from )?([^:]+):\d+', line)
-            if m:
-                fn = os.path.basename(m.group(1))
-                return 'generated' if fn in generated_names else f'harness:{fn}'
+HARNESS_FILES = {'main.cc', 'vf_rec.hh', 'meta.hh', 'locator.hh', 'runtime.hh', 'pump.hh', 'both.cc',
+                 '_probe.cc', 'verif_sched.hh', 'verif_sched_pump.hh'}
+
+
+def diag_owner(output, generated_names, model_header=None):
+    """Who owns the first error: 'generated' (a file returned by the build) or 'harness:<file>'
+    (mock runtime, mock model header, driver).  An error located in a system header is attributed
+    to the first known file on its instantiation trail ("required from ...")."""
+    harness = set(HARNESS_FILES) | ({model_header} if model_header else set())
+    lines = output.splitlines()
+    for i, line in enumerate(lines):
+        if ' error: ' not in line:
+            continue
+        m = re.match(r'^([^: ]+):\d+', line)
+        first = os.path.basename(m.group(1)) if m else ''
+        if first in generated_names:
+            return 'generated'
+        if first in harness:
+            return f'harness:{first}'
+        # system header: walk the instantiation trail around the error
+        trail = lines[max(0, i - 12):i + 25]
+        for t in trail:
+            if 'required from' in t or 'In instantiation' in t or 'In member function' in t \
+                    or 'In function' in t or 'In lambda' in t or 'In constructor' in t:
+                m2 = re.match(r'^([^: ]+):', t)
+                fn = os.path.basename(m2.group(1)) if m2 else ''
+                if fn in generated_names:
+                    return 'generated'
+                if fn in harness:
+                    return f'harness:{fn}'
+        return 'generated'  # nothing of ours on the trail: blame the code under test, visibly
     return 'link'
 
 
@@ -121,7 +143,8 @@ class Project:
         rc, so, se = run_cmd(cmd, self.dir)
         if rc != 0:
             raise BuildError('compile ' + ' '.join(sources), so + se,
-                             diag_owner(so + se, self.generated_names))
+                             diag_owner(so + se, self.generated_names,
+                                        driver.base_name(self.spec) + '.hh'))
 
     def syntax_only(self, text_or_file, compiler='g++', is_file=True, lang_header=False):
         if not is_file:
